@@ -82,7 +82,7 @@ Proof.
     destruct (store_get (patch i) (docs c)) eqn:Hget; [discriminate|].
     destruct (ensure_uniques _ _) as [touched|e] in H.
     + rewrite expire_if_noTTL in H by exact HT.
-      inversion H; subst. exists fs, i. cbn [docs with_docs idx]. auto.
+      inversion H; subst. exists fs, i. cbn [docs with_docs with_docs_w idx]. auto.
     + destruct (expire _) in H; discriminate.
   - set (c0 := mkColl (docs c) (idx c) (forced c) (next_oid c + 1) (now c) (odocs c)) in *.
     assert (HT0 : noTTL c0) by exact HT.
@@ -92,7 +92,7 @@ Proof.
     destruct (ensure_uniques _ _) as [touched|e] in H.
     + rewrite expire_if_noTTL in H by exact HT0.
       inversion H; subst. exists (fs ++ [("_id", VOid (next_oid c))]), (VOid (next_oid c)).
-      cbn [docs with_docs idx c0]. repeat split; auto. apply assoc_app_none. exact Hid.
+      cbn [docs with_docs with_docs_w idx c0]. repeat split; auto. apply assoc_app_none. exact Hid.
     + destruct (expire _) in H; discriminate.
 Qed.
 
@@ -155,10 +155,10 @@ Proof.
       apply (Hfin c HT eq_refl eq_refl md H).
     + destruct (negb _) in H; [discriminate|].
       destruct (match d with VDoc fs => assoc "_id" fs | _ => None end); [|discriminate].
-      set (c1 := with_docs c (store_set k d' (docs c))) in *.
+      set (c1 := with_docs_w c (store_set k d' (docs c))) in *.
       assert (HT1 : noTTL c1) by exact HT.
       assert (Hm1 : map fst (docs c1) = map fst (docs c)).
-      { unfold c1. cbn [docs with_docs]. apply store_set_keys.
+      { unfold c1. cbn [docs with_docs with_docs_w]. apply store_set_keys.
         apply (Hk k d). left. reflexivity. }
       destruct (ensure_uniques c1 d') as [touched|e].
       * rewrite (expire_if_noTTL touched c1 HT1) in H.
